@@ -633,3 +633,31 @@ func TestC01RawCopy(t *testing.T) {
 		}
 	})
 }
+
+// TestEveryKindC01 (run with -rapid.checks=1; outside the ^TestC01 pattern on purpose): every
+// kind of the catalog, once alone and once behind a plain column, through the whole C01
+// oracle, so that no type/shape combination depends on being drawn.
+func TestEveryKindC01(t *testing.T) {
+	first := gen.ByName["Int8|X|Int8"]
+	rapid.Check(t, func(rt *rapid.T) {
+		salt := rapid.IntRange(1, 1<<20).Draw(rt, "salt")
+		for ki, k := range gen.Kinds {
+			rows := []int{3, 1, 0, 5}[(ki+salt)%4]
+			var fv, kv []ref.Val
+			for i := 0; i < rows; i++ {
+				fv = append(fv, first.Value.Example(salt+i))
+				kv = append(kv, k.Value.Example(salt+13*ki+i))
+			}
+			cols := []colSpec{{Name: "k", Kind: k, Rows: kv}}
+			if (ki+salt)%2 == 0 {
+				cols = []colSpec{{Name: "a", Kind: first, Rows: fv}, {Name: "k", Kind: k, Rows: kv}}
+			}
+			c := c01case{cols: cols, rows: rows, rev: blockRevs[(ki+salt)%len(blockRevs)], info: ref.BlockInfo{BucketNum: -1}, bulk: ki%2 == 0, lcBump: ki % 4}
+			if ki%3 == 0 {
+				c.prefix = []byte{0xde, 0xad, 0xbe, 0xef, 0x01}
+			}
+			checkC01(rt, c)
+		}
+		stats.G().Exhaustive(fmt.Sprintf("every one of the %d catalog kinds through the whole oracle", len(gen.Kinds)))
+	})
+}
